@@ -32,8 +32,9 @@ Theorem other_hazards_allowed : unallowed_hazards = [].
 Proof. vm_compute. reflexivity. Qed.
 Print Assumptions other_hazards_allowed.
 
-(** VerifyCascadingFields, as written in the tree, builds the ethash engine with CacheDir = "" and calls
-    VerifySeal(_, false): the premises of [Props/C14.v: eth_seal_env_independent] *)
+(** every construction of the ethash engine outside the engine's own files, as written in the tree, gets a Config with
+    CacheDir = "" and every VerifySeal call there passes fulldag = false: the premises of
+    [Props/C14.v: eth_seal_env_independent] *)
 Theorem eth_seal_verification_in_memory_and_light : eth_seal_config_ok = true.
 Proof. vm_compute. reflexivity. Qed.
 Print Assumptions eth_seal_verification_in_memory_and_light.
